@@ -77,6 +77,9 @@ func c08Scopes() []c08Scope {
 		{"upstream@tcp://dns.test:53", nil, 0, &componentdns.Upstream{Scheme: componentdns.UpstreamScheme_TCP, Hostname: "dns.test", Port: 53}},
 		{"upstream@udp://dns2.test:5353", nil, 0, &componentdns.Upstream{Scheme: componentdns.UpstreamScheme_UDP, Hostname: "dns2.test", Port: 5353}},
 		{"upstream@https://doh.test:443/dns-query", nil, 0, &componentdns.Upstream{Scheme: componentdns.UpstreamScheme_HTTPS, Hostname: "doh.test", Port: 443, Path: "/dns-query"}},
+		// same server, another DoH path (per-profile endpoints) / another scheme: distinct upstreams
+		{"upstream@https://doh.test:443/profile-b", nil, 0, &componentdns.Upstream{Scheme: componentdns.UpstreamScheme_HTTPS, Hostname: "doh.test", Port: 443, Path: "/profile-b"}},
+		{"upstream@h3://doh.test:443/dns-query", nil, 0, &componentdns.Upstream{Scheme: componentdns.UpstreamScheme_H3, Hostname: "doh.test", Port: 443, Path: "/dns-query"}},
 	}
 }
 
@@ -85,7 +88,11 @@ const c08FirstUpstreamScope = 3
 // c08GenUpstreams draws a generation's upstream list: 2-3 servers of the pool in
 // some order (so a reload can replace, reorder, add or remove upstreams).
 func c08GenUpstreams(t *rapid.T) []int {
-	pool := []int{c08FirstUpstreamScope, c08FirstUpstreamScope + 1, c08FirstUpstreamScope + 2, c08FirstUpstreamScope + 3}
+	pool := []int{c08FirstUpstreamScope, c08FirstUpstreamScope + 1, c08FirstUpstreamScope + 2, c08FirstUpstreamScope + 3, c08FirstUpstreamScope + 4, c08FirstUpstreamScope + 5}
+	if rapid.IntRange(0, 2).Draw(t, "doh_family") == 0 {
+		// only the three endpoints on doh.test:443 (they differ in path or scheme alone)
+		pool = pool[3:]
+	}
 	perm := rapid.Permutation(pool).Draw(t, "upstreams")
 	return perm[:rapid.IntRange(2, 3).Draw(t, "nUpstreams")]
 }
@@ -487,6 +494,15 @@ func (s *c08State) insert(t *rapid.T, k c08Key) {
 	ttl := rapid.SampledFrom(c08TTLs).Draw(t, "ttl")
 	nans := rapid.SampledFrom([]int{1, 1, 1, 2, 3, 0}).Draw(t, "nanswers")
 	answers, data := s.makeAnswers(fq, k.Qtype, ttl, nans)
+	if nans >= 2 && ttl < 0x7fffffff && rapid.IntRange(0, 2).Draw(t, "mixed_ttls") == 0 {
+		// records of one answer need not share a TTL (CNAME chains, merged RRsets). The
+		// first record carries the smallest one here, so "its TTL" is unambiguous: the
+		// entry must not outlive it.
+		for _, rr := range answers[1:] {
+			rr.Header().Ttl = ttl + rapid.SampledFrom([]uint32{1, 16, 300, 86400}).Draw(t, "later_ttl_extra")
+		}
+		s.cls("insert_later_records_longer_ttl")
+	}
 	var ns, extra []dnsmessage.RR
 	if rapid.IntRange(0, 3).Draw(t, "sections") == 0 {
 		ns = []dnsmessage.RR{&dnsmessage.NS{Hdr: dnsmessage.RR_Header{Name: "test.", Rrtype: dnsmessage.TypeNS, Class: dnsmessage.ClassINET, Ttl: 86400}, Ns: "ns.test."}}
